@@ -113,7 +113,8 @@ CHECKS = {
                  "equal the multiset union for every rule and file, total on disjoint keys; the four accumulators are folds of the verified merge "
                  "over all files. BOUNDED stand-ins (not counted as proved): the JSON/SARIF readers against a reference extraction on generated documents (multi-colon "
                  "components, non-S rule keys, results with locations in two files), the memoised accumulator called repeatedly in one process, and "
-                 "the real CLI given several result files at once (every file with an open finding is fixed)."),
+                 "the real CLI given several result files at once (every file with an open finding is fixed), and detect_sarif_tools on generated SARIF "
+                 "families mixing runs of both registered tools, foreign and malformed runs (every file routed to every tool with a run in it)."),
         "note": "Trusted: json library, dict insertion order; reader loops over opaque JSON are bounded only (bound stated in evidence).",
         "design_ref": "DESIGN.md section 4 C12",
     },
@@ -124,7 +125,7 @@ CHECKS = {
                  "nothing when no store returned a changeset; the pyproject/setup.cfg/setup.py writers against the dispatch clauses (dry-run, single file, "
                  "None => untouched). BOUNDED stand-in (not counted as proved): the real parser -> has_requirement -> writer chain on generated manifests "
                  "of all four formats against a reference reading (parses, declared kept, each new requirement once, declared already => untouched, "
-                 "second run and a later codemod of the same run add nothing, undecodable manifests untouched), and the real CLI with two codemods "
+                 "second run and a later codemod of the same run add nothing, a later codemod of the same run needing another package keeps the earlier addition, undecodable manifests untouched), and the real CLI with two codemods "
                  "needing one package on a project whose only manifest cannot be updated (exit 0, manifest untouched, no result claims an update)."),
         "note": "tomlkit / configparser / libcst serialisation is third-party and opaque to the engine: covered by the bounded stand-in only.",
         "design_ref": "DESIGN.md section 4 C14",
